@@ -30,8 +30,8 @@ def vec(items):
     return '[' + ','.join(out) + ']'
 
 
-def build_exec_harness(variant='ts-asan', ts=True, san='asan', heaptrack=False, repo=None, compiled_in=False, syslog_output=False):
-    v = build.build_variant(variant, ts=ts, san=san, repo=repo, compiled_in=compiled_in, nonreentrant=True, syslog_output=syslog_output)
+def build_exec_harness(variant='ts-asan', ts=True, san='asan', heaptrack=False, repo=None, compiled_in=False, syslog_output=False, cfg_def=()):
+    v = build.build_variant(variant, ts=ts, san=san, repo=repo, compiled_in=compiled_in, nonreentrant=True, syslog_output=syslog_output, cfg_def=cfg_def)
     rec = build.build_shared('librec.so', [os.path.join(NATIVE, 'rec.c')])
     cf = ['-DVERIF_HEAPTRACK'] if heaptrack else []
     h = build.link_harness(v, os.path.join(v['dir'], 'h_exec'),
